@@ -186,26 +186,25 @@ def make_body(template, fam, info):
 
 
 def make_body_d(info):
-    """a non-ground stored fact p(f(_), _) used by an enumeration and by a retract/query solution that is held open
-    at the same time, in a symbolic order: what one use binds, the other must not see"""
-    spec = [('c', 'int', None), ('order', 'int', '0 <= order <= 2'), ('second', 'int', '0 <= second <= 1')]
+    """two stored facts p(0, 0) and p(f(_), _); an enumeration p(X, Y) and a second use that binds the non-ground fact
+    (a retract or a query solution, held open) are stepped in a symbolic order: what one use binds, the other must not see,
+    and the enumeration visits the facts that existed when it started"""
+    spec = [('c', 'int', None), ('order', 'int', '0 <= order <= 1'), ('second', 'int', '0 <= second <= 1')]
 
     def body(vals):
         c, order, second = vals
         ch.install_registry(False)
         yp = ch.new_engine()
+        yp.assert_fact(yp.atom('p'), [0, 0])
         yp.assert_fact(yp.atom('p'), [yp.functor('f', [yp.variable()]), yp.variable()])
         X, Y, Z = yp.variable(), yp.variable(), yp.variable()
         try:
             e1 = yp.query('p', [X, Y])
-            other_goal = yp.functor('p', [yp.functor('f', [c]), Z])
-            e2 = yp.query('retract', [other_goal]) if second == 0 else yp.query('p', [yp.functor('f', [c]), c])
-            if order == 1:
-                steps = (e2, e1)
-            elif order == 2:
-                steps = (e1, e1)
+            if second == 0:
+                e2 = yp.query('retract', [yp.functor('p', [yp.functor('f', [c]), Z])])
             else:
-                steps = (e1, e2)
+                e2 = yp.query('p', [yp.functor('f', [c]), c])
+            steps = (e1, e2, e1) if order == 0 else (e2, e1, e1)
             seen = []
             for gen_ in steps:
                 try:
@@ -219,16 +218,13 @@ def make_body_d(info):
         except Exception as e:
             ch.note(info, 'raised %s: %s', type(e).__name__, str(e)[:120])
             return ch.VIOLATED
-        # whenever e1 has produced its answer it shows the stored term with variables of its own: f(_A), _B
-        fresh = (('f', 'f', (('v', 0),)), ('v', 1))
+        first = (('c', 0), ('c', 0))
+        fresh = (('f', 'f', (('v', 0),)), ('v', 1))          # the stored term with variables of the enumeration's own
         unbound = (('v', 0), ('v', 1))
         if order == 0:
-            exp = [fresh, fresh]
-        elif order == 1:
-            # retract ran first: the fact is gone when e1 starts (second == 0); a plain query leaves it there
-            exp = [unbound, None] if second == 0 else [unbound, fresh]
+            exp = [first, first, fresh]                      # e1 started before the retract: it still visits the second fact
         else:
-            exp = [fresh, None]
+            exp = [unbound, first, None if second == 0 else fresh]
         if seen != exp:
             ch.note(info, 'order %r, second use %r: observed %r, expected %r', order, second, seen, exp)
             return ch.VIOLATED
